@@ -93,7 +93,7 @@ def l2_monitor(spec, rec, obs):
     return out, facts
 
 
-async def _resume_after_cancel(seed):
+async def _resume_after_cancel(seed, hang=False):
     """run a gated fan-out, cancel it at a random moment, serialize the context through JSON, resume it on a fresh
     workflow object and drive it to the end; returns (cancelled?, result of resumed run, expected number of sets)"""
     rng = random.Random(seed)
@@ -133,7 +133,7 @@ async def _resume_after_cancel(seed):
     d = json.loads(json.dumps(handler.ctx.to_dict()))
     entered_before = sum(1 for r in rec.log if r["kind"] == "enter")
     # second round (half of the cases): resume, let some steps complete, cancel again, serialize again, resume again
-    rounds = rng.choice([1, 2])
+    rounds = 1 if hang else rng.choice([1, 2])
     cur_rec = rec
     for rnd in range(rounds - 1):
         recn = E.Recorder()
@@ -164,6 +164,41 @@ async def _resume_after_cancel(seed):
         cur_rec = recn
     rec2 = E.Recorder()
     rec2.eid = cur_rec.eid
+    if hang:
+        # the resumed run is a run with a timeout like any other: it never finishes (one gate stays shut), so it must
+        # fail with WorkflowTimeoutError after WorkflowTimedOutEvent once the timeout has elapsed since the resume
+        T = rng.choice([5.0, 20.0, 60.0])
+        wf2 = E.build_workflow(dict(spec, timeout=T), rec2)
+        h2 = wf2.run(ctx=Context.from_dict(wf2, d))
+        stream = []
+
+        async def collect():
+            try:
+                async for e in h2.stream_events(expose_internal=True):
+                    stream.append(e)
+            except Exception:  # noqa: BLE001
+                pass
+        cons = asyncio.ensure_future(collect())
+        for _ in range(rng.randint(0, 3)):
+            await vloop.settle()
+            if len(rec2.waiting) > 1:
+                rec2.open(rng.choice(rec2.waiting))
+        await vloop.settle()
+        t0 = asyncio.get_running_loop().time()
+        await asyncio.sleep(T + 1.0)
+        await vloop.settle()
+        done = h2._result_task.done()
+        exc = None
+        if done:
+            try:
+                h2._result_task.result()
+            except BaseException as ex:  # noqa: BLE001
+                exc = ex
+            await asyncio.gather(cons, return_exceptions=True)
+        else:
+            cons.cancel()
+        return dict(cancelled=True, hang=True, done=done, exc=exc, stream=stream, T=T, rec=rec2, spec=spec,
+                    entered_before=entered_before, waited=asyncio.get_running_loop().time() - t0)
     wf2 = E.build_workflow(spec, rec2)
     ctx2 = Context.from_dict(wf2, d)
     obs = await E.drive(wf2, rec2, rng, ctx=ctx2, policy="random")
@@ -193,7 +228,8 @@ def run(ctx):
     ctx.rule = ("L1: timeout / cancel ticks of random reachable reducer histories (named steps = steps with work in "
                 "progress; cancel leaves the state untouched); L2: generated runs hit by the workflow timeout or by "
                 "cancel_run at a random moment of a random schedule on the real engine under virtual time; cancelled runs "
-                "are serialized through JSON, resumed on a fresh workflow object and driven to their result; distinct key = "
+                "are serialized through JSON, resumed on a fresh workflow object and driven to their result, or resumed with a "
+                "timeout and left unfinished beyond it; distinct key = "
                 "history index / run facts / (resume seed, progress at cancel)")
     ctx.prove()
     run_l1(ctx, ctx.n(120, 4000), l1_monitor, THEOREMS, need=("tick_TickCancelRun", "tick_TickTimeout"))
@@ -217,12 +253,36 @@ def run(ctx):
                            % (obs.done, obs.exception, obs.stuck)))
         elif not isinstance(obs.result, tuple) and obs.result is None:
             rf.append(dict(seed=seed, why="resumed run returned no result"))
-    ctx.programs += nres
-    ctx.suite("engine.resume_after_cancel", attempts=nres, cancelled_and_resumed=resumed, failures=len(rf))
+    nh, hung = ctx.n(40, 800), 0
+    for i in range(nh):
+        seed = rng.randrange(1 << 30)
+        r = vloop.run(_resume_after_cancel(seed, hang=True))
+        if not r.get("cancelled") or not r.get("hang"):
+            continue
+        hung += 1
+        ctx.count(1, ("resume-hang", r["entered_before"], len(r["rec"].log), r["T"]))
+        tev = [e for e in r["stream"] if isinstance(e, WorkflowTimedOutEvent)]
+        if not r["done"]:
+            rf.append(dict(seed=seed, hang=True, why="a cancelled run resumed with timeout=%s s and left unfinished is still running "
+                           "%s s after the resume: it never timed out" % (r["T"], r["waited"])))
+        elif not isinstance(r["exc"], WorkflowTimeoutError):
+            rf.append(dict(seed=seed, hang=True, why="a resumed run left unfinished beyond its timeout of %s s ended with %r, not "
+                           "WorkflowTimeoutError" % (r["T"], r["exc"])))
+        elif len(tev) != 1 or not isinstance(r["stream"][-1], WorkflowTimedOutEvent):
+            rf.append(dict(seed=seed, hang=True, why="a resumed run timed out but its stream does not end with one WorkflowTimedOutEvent"))
+        else:
+            cut = sorted({x["step"] for x in r["rec"].log if x["kind"] == "exit" and x["outcome"] == "cancelled"})
+            if sorted(tev[0].active_steps) != cut or tev[0].timeout != r["T"]:
+                rf.append(dict(seed=seed, hang=True, why="resumed run: WorkflowTimedOutEvent names %s timeout=%s, the steps cut off were %s, "
+                               "configured %s" % (sorted(tev[0].active_steps), tev[0].timeout, cut, r["T"])))
+    ctx.programs += nres + nh
+    ctx.suite("engine.resume_after_cancel", attempts=nres, cancelled_and_resumed=resumed, failures=len(rf),
+              resumed_and_left_hanging=hung)
+    ctx.require_coverage("engine.resume_after_cancel", "resumed_and_left_hanging", hung, 10)
     ctx.require_coverage("engine.resume_after_cancel", "cancelled_and_resumed", resumed, 20)
     for f in rf[:3]:
         ctx.violation("C31 fails on the real engine: %s" % f["why"],
-                      dict(kind="implementation-monitor/L2", input=dict(template="fanout+cancel+resume", seed=f["seed"])))
+                      dict(kind="implementation-monitor/L2", input=dict(template="fanout+cancel+resume" + ("+hang" if f.get("hang") else ""), seed=f["seed"])))
     report_l2(ctx, fails)
     from props._engine_common import run_runnerdiff
     run_runnerdiff(ctx, ctx.n(60, 1500), 'C31_finished_run_is_frozen / C31_no_command_after_the_halt')
